@@ -96,8 +96,48 @@ def run(ctx):
                 st["agreed"] += 1
     except Exception as e:
         ctx.notes.append("harness: fallback-binary-only (%s)" % str(e)[:200])
+    # ---- a total beyond 2^53 (more than a binary64 holds exactly): many sparse files near the largest size the file system takes ----
+    huge = os.path.join(ctx.scratch, "huge")
+    os.makedirs(os.path.join(huge, "d"))
+    fsz = None
+    for cand in (2 ** 44 - 4096, 2 ** 43, 2 ** 41, 2 ** 40):
+        try:
+            with open(os.path.join(huge, "probe"), "wb") as f:
+                f.truncate(cand)
+            fsz = cand
+            break
+        except OSError:
+            continue
+    os.remove(os.path.join(huge, "probe"))
+    if fsz is not None and fsz * 1500 > 2 ** 53:
+        nfiles = (2 ** 53) // fsz + 8
+        sizes_h = []
+        for i in range(nfiles):
+            sz = fsz - rng.randint(0, 999)
+            with open(os.path.join(huge, "d" if i % 2 else "", "h%04d.dat" % i), "wb") as f:
+                f.truncate(sz)
+            sizes_h.append(sz)
+        for nm, sz in (("small1.dat", 1), ("small7.dat", 7), ("skip.bin", 12345)):
+            with open(os.path.join(huge, nm), "wb") as f:
+                f.truncate(sz)
+            if nm.endswith(".dat"):
+                sizes_h.append(sz)
+        if sum(sizes_h) % 2 == 0:
+            with open(os.path.join(huge, "parity.dat"), "wb") as f:
+                f.truncate(1)
+            sizes_h.append(1)
+        rows_h, r_h = qlib.select(ctx.impl, "count(*), sum(size), min(size), max(size)", "from huge where name like '%.dat'", cwd=ctx.scratch, ncols=4, timeout=60)
+        exp_h = [str(len(sizes_h)), str(sum(sizes_h)), str(min(sizes_h)), str(max(sizes_h))]
+        case_h = {"tree": "%d sparse files of about %d bytes (see vlib/c07.py)" % (nfiles, fsz), "query": r_h["query"], "exact_total": sum(sizes_h)}
+        if rows_h is None or list(rows_h[0]) != exp_h:
+            ctx.violation("impl-violates-spec", "COUNT/SUM/MIN/MAX(size) over a total beyond 2^53: got %s, the entries give %s" % (rows_h, exp_h), input=case_h)
+        else:
+            st["agreed"] += 1
+            st["hist"]["total_beyond_2_53"] += 1
+    else:
+        ctx.notes.append("the file system does not take files large enough for a total beyond 2^53; that case was skipped")
     ctx.coverage.update(
         evaluations=len(jobs) + n_h, distinct_nontrivial=len(st["distinct"]), traces_validated_against_impl=st["agreed"],
-        rule="random trees (0, 1, 2 and many matching entries; sizes with non-integer mean; sizes above 2^33) x select lists of 1-9 aggregates (all nine functions, all documented spellings, any case) over size, hardlinks, uid, length(name), line_count x WHERE filters (incl. one matching nothing): exactly one row; COUNT/SUM/MIN/MAX equal the exact values computed from the same query without aggregates; AVG, VAR_*, STDDEV_* within 1e-11 relative of the exact rational formulas. non-trivial = at least two matching entries",
+        rule="(plus one directory of about 520 sparse files whose sizes add up to more than 2^53: COUNT / SUM / MIN / MAX exact) random trees (0, 1, 2 and many matching entries; sizes with non-integer mean; sizes above 2^33) x select lists of 1-9 aggregates (all nine functions, all documented spellings, any case) over size, hardlinks, uid, length(name), line_count x WHERE filters (incl. one matching nothing): exactly one row; COUNT/SUM/MIN/MAX equal the exact values computed from the same query without aggregates; AVG, VAR_*, STDDEV_* within 1e-11 relative of the exact rational formulas. non-trivial = at least two matching entries",
         samples=st["samples"], distribution=dict(st["hist"]))
     return ctx.finish(trusted=["the per-entry column values are taken from the binary's own non-aggregate run of the same query (C04/C02 cover them)", "sqrt is IEEE (as in Rust); the tolerance only absorbs binary64 rounding of the accumulation"])
